@@ -33,7 +33,7 @@ READONLY = {'get', 'get_attributes', 'get_attribute_list', 'encrypt', 'decrypt',
 
 def plan(tier):
     return {
-        'level': 'exploration', 'shards': 16, 'budget_s': 120 if tier == 'quick' else 800,
+        'level': 'exploration', 'shards': 16, 'budget_s': 240 if tier == 'quick' else 800,
         'rule': 'generated operation policies (preset / groups / both / neither, entries randomly '
                 'missing) plus the built-in default/public; objects of all seven types with canary '
                 'values under each policy; every (identity x object x addressing operation) attempted '
@@ -50,8 +50,9 @@ def plan(tier):
 
 def cases(tier, seed):
     n = 24 if tier == "quick" else 320
-    return ([{'hist': i} for i in range(n)] + [{'conc': i} for i in range(16 if tier == 'quick' else 160)] +
-            [{'monitor': i} for i in range(64 if tier == 'quick' else 640)])
+    # the short classes first: the histories take what is left of the budget
+    return ([{'monitor': i} for i in range(64 if tier == 'quick' else 640)] + [{'conc': i} for i in range(16 if tier == 'quick' else 160)] +
+            [{'hist': i} for i in range(n)])
 
 
 def rows_of(dump):
